@@ -33,10 +33,20 @@ VERIF_MAIN {
   unsigned long n = (NMIN) == (N) ? (unsigned long) (N) : (unsigned long) IN(NMIN, N); /* exact-n jobs keep n a literal so that loops over n fold */
   unsigned long long ord[N];
   ukey_t d[N];
+#ifdef PATTERN
+  /* one job per equality pattern: bit i-1 of PATTERN set <=> d[i] == d[i-1] (the same symbolic value, so the duplicate tests of the
+     driver fold), clear <=> d[i] > d[i-1].  The 2^(N-1) patterns partition the sorted arrays of length N. */
+  for (int i = 0; i < N; i++) {
+    if (i && ((PATTERN >> (i - 1)) & 1)) ord[i] = ord[i - 1];
+    else ord[i] = IN(i ? ord[i - 1] + 1 : ORD_LO, ORD_HI);
+    d[i] = FROM_ORD(ord[i]);
+  }
+#else
   for (int i = 0; i < N; i++) {
     ord[i] = IN(i ? ord[i - 1] : ORD_LO, ORD_HI);
     d[i] = FROM_ORD(ord[i]);
   }
+#endif
   unsigned long long qo = IN(0, ORD_MAX - 1);
   ukey_t q = FROM_ORD(qo);
   unsigned long out[7] = {0, 0, 0, 0, 0, 0, 0};
